@@ -559,6 +559,12 @@ def u_units(ctx):
         if e.kind == "return":
             b.emits_exactly(e, [("G20", "G21")], ["C07", "C12"])
             ctx.check("units recorded", fld(e.heap, b.sref, "_current_length_units").idx == m.idx, e, ["C07", "C12"], "post")
+            # C12: the resolution denotes the same physical length before and after (pixels = value / scale_factor of the unit it is expressed in)
+            from specs.common import h_scale_factor
+            s_old = h_scale_factor(b.x, fld(b.h0, b.sref, "_current_length_units"), [], {}, None).val
+            s_new = h_scale_factor(b.x, fld(e.heap, b.sref, "_current_length_units"), [], {}, None).val
+            r0, r1 = fld(b.h0, b.sref, "_current_resolution").val, fld(e.heap, b.sref, "_current_resolution").val
+            ctx.check("C12 a units switch rescales the resolution: same length in pixels before and after", r1 * s_old == r0 * s_new, e, ["C12"], "post")
 
 
 @unit("GCodeBuilder.set_resolution", ["C05", "C12", "C07", "C01", "C02", "C03"])
